@@ -51,7 +51,16 @@ fn run(c: &mut Case) {
         return;
     }
     let cfg = RCfg { allow: if doc.has_raw { ALLOW_IDS } else { 0 }, buffered: vec![], capacity: None, max_size: MaxSz::Default, eof_end: true };
-    let p = parse_slice(&run.bytes, &cfg);
+    let p = if c.rng.chance(3, 4) {
+        parse_slice(&run.bytes, &cfg)
+    } else {
+        // a quarter of the read-backs go through a scripted source (short reads, small initial capacity)
+        let src = super::c05::random_source(&mut c.rng, &run.bytes);
+        let mut cfg2 = cfg.clone();
+        cfg2.capacity = *c.rng.pick(&[None, Some(0usize), Some(16), Some(100)]);
+        c.count("readbacks_with_short_reads");
+        crate::rd::parse_scripted(src, &cfg2).0
+    };
     c.count("roundtrips_compared");
     c.add("items_compared", expected.len() as u64);
     let got = p.values();
